@@ -829,7 +829,7 @@ func c07HasName(hs []c07Hdr, name string) bool {
 
 // c07Drive runs every (session, endpoint, spoof style) case against one instance and judges it.
 func c07Drive(run *vfRun, w *vfWorld, p *vfProxy, cfg *c07Cfg, inst int, sessions []*c07Sess) {
-	endpoints := []struct{ Name, Target string }{{"proxied", "/app/x?q=1"}, {"bypassed", "/open/x"}, {"auth-only", "/oauth2/auth"}}
+	endpoints := []struct{ Name, Target string }{{"proxied", "/app/x?q=1"}, {"bypassed", "/open/x"}, {"auth-only", "/oauth2/auth"}, {"auth-only-denied", "/oauth2/auth?allowed_groups=c07-no-such-group"}}
 	// names the client spoofs: all configured request names, all configured response names, and one unconfigured control
 	spoofNames := append([]string{}, c07Names(cfg.Req)...)
 	for _, n := range c07Names(cfg.Resp) {
@@ -879,15 +879,22 @@ func c07Drive(run *vfRun, w *vfWorld, p *vfProxy, cfg *c07Cfg, inst int, session
 					cell = "" // nothing configured: trivial
 				}
 				switch ep.Name {
-				case "auth-only":
+				case "auth-only", "auth-only-denied":
 					if len(hits) > 0 {
 						run.Inconclusive("auth-only request reached the upstream")
 						continue
 					}
 					run.Eval(cell)
 					accepted := resp.Code == 202
-					if accepted != sess.HasSession {
-						run.Inconclusive(fmt.Sprintf("auth-only status %d for %s session", resp.Code, sess.Source))
+					wantCode := 401
+					switch {
+					case sess.HasSession && ep.Name == "auth-only":
+						wantCode = 202
+					case sess.HasSession:
+						wantCode = 403 // authenticated, but not in the group the sub-request demands
+					}
+					if resp.Code != wantCode {
+						run.Inconclusive(fmt.Sprintf("%s status %d for %s session", ep.Name, resp.Code, sess.Source))
 						continue
 					}
 					run.Count(fmt.Sprintf("auth_only_%d", resp.Code), 1)
